@@ -187,7 +187,7 @@ def handler(c):
             if ent["oid"] not in objs:
                 objs[ent["oid"]] = UserMove(ent["oid"], ent["script"], "any")
             crit = {"len0": UserCriteriaFalsy, "boolfalse": UserCriteriaBoolFalse}.get(ent.get("criteria_kind"), UserCriteria)(100 + len(table), verdicts, snaps)
-            mc.add_move(objs[ent["oid"]], criteria=crit, name=ent["name"], probability=ent.get("probability", 1.0))
+            mc.add_move(objs[ent["oid"]], criteria=crit, name=ent["name"], probability=ent.get("probability", 1.0), minimum_count=ent.get("minimum_count", 0))
             table.append([ent["name"], ent["oid"], 100 + len(table) - 0])
         else:
             shipped = {"disp": lambda: DisplacementMove(np.arange(n)), "exch": lambda: ExchangeMove(np.arange(n)), "cell": CellMove}[ent["shipped"]]()
